@@ -416,6 +416,18 @@ def check_c(ck, repo):
                 seen_kinds.add("root")
             if is_leaf == "True":
                 ck.verdict(v not in ("UNUSED", "numpy.nan") and th == "0", "C12.c", g, f"{label}: leaf", f"leaf carries the bin number {v}", f"{label}: a leaf is stored with value {v} / threshold {th}")
+                if g.name != "add_root" and len(g.named_params) >= 4:
+                    # a leaf closes a range with no edge left to test: [i, i) on the left of the split j,
+                    # or [i, j) with j == i + 1 on the right of the split i (bins[i] was tested by the parent)
+                    gp_ = g.named_params
+                    i_p, j_p, left_p = gp_[1], gp_[2], gp_[3]
+                    cs = set(p.conds)
+                    on_left = (ctext(left_p), True) in cs
+                    on_right = (ctext(left_p), False) in cs
+                    empty_l = (ctext(f"{i_p} == {j_p}"), True) in cs
+                    last_r = (ctext(f"{i_p} + 1 == {j_p}"), True) in cs or (ctext(f"{j_p} == {i_p} + 1"), True) in cs
+                    okleaf = (on_left and empty_l and v in (i_p, j_p)) or (on_right and last_r and v == j_p)
+                    ck.verdict(okleaf, "C12.c", g, f"{label}: leaf closes an exhausted range", f"leaf {v} where no edge of the range remains to be tested", f"{label}: a leaf with value {v} is created although an edge of bins[{i_p}:{j_p}] has not been tested on this path (a leaf is right only for the empty range on the left of its parent's edge, value {i_p}, or for the single-edge range on the right of it, value {j_p}): inputs on the other side of the untested edge get the wrong bin")
             else:
                 ck.verdict(is_leaf == "False" and v in ("UNUSED", "numpy.nan") and th is not None and th.startswith(f"{bins_p}["), "C12.c", g, f"{label}: split", f"split node has no value and threshold {th}", f"{label}: a split node has value {v} / threshold {th}; expected UNUSED and bins[...]")
             if g.name == "add_root" or a[1] in ("-1",):
@@ -463,6 +475,16 @@ def check_c(ck, repo):
             raise AnalysisError("anchor vanished: tree_add_node in _tree_digitize.pyx")
         params = [a.arg for a in w.args.args]
         r = [x for x in ast.walk(w) if isinstance(x, ast.Return)]
+        # typed C copies of the arguments (`cdef intp_t c_parent = parent`) stand for the arguments
+        alias = {}
+        for st_ in w.body:
+            if isinstance(st_, ast.Assign) and len(st_.targets) == 1 and isinstance(st_.targets[0], ast.Name) and isinstance(st_.value, ast.Name) and st_.value.id in params and st_.targets[0].id not in alias and st_.targets[0].id not in params:
+                alias[st_.targets[0].id] = st_.value.id
+        if alias and len(r) == 1 and isinstance(r[0].value, ast.Call):
+            class _Un(ast.NodeTransformer):
+                def visit_Name(self, n_):
+                    return ast.copy_location(ast.Name(id=alias.get(n_.id, n_.id), ctx=n_.ctx), n_)
+            r[0].value = _Un().visit(r[0].value)
         direct = len(r) == 1 and isinstance(r[0].value, ast.Call) and src_of(r[0].value.func) == f"{params[0]}._add_node"
         if direct:
             # the cdef helper is written out in the wrapper (or was looked through): one layer to check
